@@ -85,6 +85,12 @@ def generate(rng, tier):
             tch = "\x00".encode(codec)
             if rng.random() < 0.3:
                 tch = "X".encode(codec)
+            if enc.startswith(("UTF-16", "UTF-32")) and rng.random() < 0.5:
+                # text in which the terminator's bytes also occur straddling two characters (not a character there)
+                tch = "X".encode(codec)
+                body = ("\u5841\u4100" if codec.endswith("le") else "\u4100\u5841").encode(codec)
+                if rng.random() < 0.4:
+                    body = "A".encode(codec) + body
             term = hx(tch)
             payload = body + (tch if rng.random() < 0.85 else b"") + rng.randbytes(rng.randrange(0, 3))
         elif delim == "leading":
@@ -238,7 +244,11 @@ def oracle(line, out):
             text = int(sb or "0", 2).to_bytes(strlen // 8, "big").decode(enc)
         elif term != "-":
             tb = unhx(term)
+            # the first termination *character*: it starts on a code-unit boundary of the encoding
+            w = 2 if xbuild.uS(e[1]).startswith("UTF-16") else 4 if xbuild.uS(e[1]).startswith("UTF-32") else 1
             i = buf.find(tb)
+            while i > 0 and i % w:
+                i = buf.find(tb, i + 1)
             if i < 0:
                 return out == "err value"
             text = buf[:i].decode(enc)
